@@ -21,24 +21,29 @@ from vlib import *
 PROP = "C16"
 TSPEC, TCFG = "CancelTrace.tla", "CancelTrace.cfg"
 M_HANGUP_BITS = (1 << 10) | (1 << 11)      # M_HANGUP_RACE, M_CAW_HANGUP of drv_cancel.c
-ALL_MODES = (1 << 12) - 1
+M_REG_BITS = (1 << 12) | (1 << 13) | (1 << 14)   # M_REG_CANCEL, M_REG_MERGE, M_REG_MERGE_CANCEL
+ALL_MODES = (1 << 15) - 1
 ALL_KINDS = (1 << 8) - 1
 FD_KINDS = 0x78                             # read/write on pipe/socketpair
 KF_KEY = "hangup_double_finalize"
 
-QUICK = ["Cancel_data_q.cfg", "Cancel_timer_q.cfg", "Cancel_signal_q.cfg", "Cancel_fd_q.cfg", "Cancel_caw_q.cfg"]
+QUICK = ["Cancel_data_q.cfg", "Cancel_timer_q.cfg", "Cancel_signal_q.cfg", "Cancel_fd_q.cfg", "Cancel_caw_q.cfg",
+         "Cancel_reg_q.cfg", "Cancel_reg_fd_q.cfg"]
 THOROUGH = QUICK + ["Cancel_data_t.cfg", "Cancel_timer_t.cfg", "Cancel_fd_t.cfg", "Cancel_signal_t.cfg",
                     "Cancel_caw_data_t.cfg", "Cancel_caw_fd_t.cfg", "Cancel_caw_timer_t.cfg",
-                    "Cancel_global_t.cfg", "Cancel_data_global_t.cfg", "Cancel_susp_t.cfg"]
+                    "Cancel_global_t.cfg", "Cancel_data_global_t.cfg", "Cancel_susp_t.cfg",
+                    "Cancel_reg_data_t.cfg", "Cancel_reg_fd_t.cfg", "Cancel_reg_timer_t.cfg"]
 PINNED = "Cancel_fd_pinned.cfg"
 # (mutant, base config, judged by)
 MUTANTS = [("callout_before_unreg", "Cancel_fd_q.cfg", "safety"),
            ("no_cancel_check", "Cancel_data_q.cfg", "safety"),
            ("callout_on_mgr", "Cancel_fd_q.cfg", "safety"),
            ("caw_no_wait", "Cancel_caw_q.cfg", "safety"),
+           ("stale_flags_after_registration", "Cancel_reg_q.cfg", "own"),
            ("no_waiter_wake", "Cancel_caw_q.cfg", "live")]
 MUTANTS_T = [("handler_not_taken", "Cancel_timer_q.cfg", "safety"),
-             ("keep_epoll", "Cancel_signal_q.cfg", "safety")]
+             ("keep_epoll", "Cancel_signal_q.cfg", "safety"),
+             ("stale_flags_after_registration", "Cancel_reg_fd_q.cfg", "own")]
 PROPERTY_INVARIANTS = "INVARIANTS TypeOK C16 HandlerExclusive CancelHandlerOnce ConvergedAtQuiescence"
 
 
@@ -86,7 +91,7 @@ def _model_job(job):
         # informational: the header contract of cancel_and_wait (stronger than C16) on the hang-up configuration
         src = src.replace('Mut = "strict"', 'Mut = "none"')
         src = re.sub(r"^INVARIANTS .*$", "INVARIANTS TypeOK CawStrict", src, flags=re.M)
-    p = os.path.join(rundir(PROP), "mut_%s.cfg" % mut)
+    p = os.path.join(rundir(PROP), "mut_%s_%s" % (mut, cfg))
     open(p, "w").write(src)
     return job, _checked("mutant " + mut, "Cancel.tla", p, timeout=1200, workers=2, metaname="c16_mut_%s.%d" % (mut, os.getpid()),
                          extra=["-lncheck", "final"])
@@ -126,6 +131,9 @@ def model(v, tier):
         else:
             if not r.violated or r.violated == "TypeOK":
                 raise Broken("spec mutant %s not refuted in %s: the properties are vacuous in these bounds" % (mut, cfg))
+            if mode == "own" and (r.violated != "C16" or _bad_of(r) != "handler_started_after_cancel_from_own_context"):
+                raise Broken("spec mutant %s must be refuted by the own-context-cancel invariant, not by %s / %s"
+                             % (mut, r.violated, _bad_of(r)))
             if mode == "live" and not r.violated.startswith("temporal"):
                 raise Broken("liveness mutant %s refuted by %s, not by the temporal properties" % (mut, r.violated))
             v.notes.setdefault("spec_mutants_refuted", []).append(
@@ -231,6 +239,8 @@ def traces(v, tier, seed):
         jobs.append((drv, i, s, perturb, nexec, ALL_KINDS, ALL_MODES, steer))
     # hang-ups racing with the acknowledgement on the target queue, steered (descriptor kinds only)
     jobs.append((drv, runs, seed * 1000 + 900, 2, 24 if tier == "quick" else 60, FD_KINDS, M_HANGUP_BITS, 1))
+    # cancel / merge from the registration handler with an event already pending (data, read, write sources)
+    jobs.append((drv, runs + 1, seed * 1000 + 901, 2, 24 if tier == "quick" else 60, 0x7b, M_REG_BITS, 0))
     kf = {x["key"]: x for x in known_findings(PROP)["findings"]}
     cover = collections.Counter()
     stats = collections.Counter()
@@ -298,7 +308,8 @@ def traces(v, tier, seed):
                     m = re.search(r'<<"DRIFT", (\d+)>>', r.out)
                     if m and int(m.group(1)):
                         stats["drift_records"] += int(m.group(1))
-                for k in ("late_after_foreign_cancel", "late_after_caw", "handler_running_at_caw_ret", "steered_hangup", "steered_late"):
+                for k in ("late_after_foreign_cancel", "late_after_caw", "handler_running_at_caw_ret", "steered_hangup", "steered_late",
+                          "reg_cancel_with_event_pending"):
                     stats[k] += _stat(err, k)
                 if len(v.samples) < 3:
                     lines = open(tr).read().splitlines()
@@ -331,7 +342,7 @@ def run(tier, seed):
                      "the kernel is abstracted as: an epoll registration fires only while it exists and is armed",
                      "hooked build serialises traced atomics with their log record (global lock)",
                      "trace validation is at the flag-word level + life-cycle order (see CancelTrace.tla header), not pc-level",
-                     "not modelled: registration handlers, set_timer after activation, retargeting, last release without cancel"]
+                     "not modelled: set_timer after activation, retargeting, last release without cancel"]
     # the model checking and the real executions run side by side, each into its own verdict; merged here
     vm, vt = Verdict(PROP, tier, seed), Verdict(PROP, tier, seed)
     with ThreadPoolExecutor(max_workers=2) as ex:
